@@ -82,8 +82,19 @@ def sessions_of(lines):
     for part in sorted(set(p for p, _ in per_part)):
         ls = sorted(per_part.get((part, "leader"), []), key=lambda s: s[0]["seq"])
         fs = sorted(per_part.get((part, "follower"), []), key=lambda s: s[0]["seq"])
-        for i, lsess in enumerate(ls):
-            fsess = fs[i] if i < len(fs) else []
+        used = set()
+        for lsess in ls:
+            # the follower session that answers this one: same partition, same query text,
+            # begun after the leader asked (sub-queries of one WHERE run concurrently)
+            text = next((e["d"] for e in lsess if e["kind"] == "query"), None)
+            fsess = []
+            for i, cand in enumerate(fs):
+                if i in used or cand[0]["seq"] < lsess[0]["seq"]:
+                    continue
+                if next((e["d"] for e in cand if e["kind"] == "query"), None) == text:
+                    used.add(i)
+                    fsess = cand
+                    break
             out.append((part, sorted(lsess + fsess, key=lambda e: e["seq"])))
     return out
 
